@@ -508,7 +508,7 @@ Section ArrayRefines.
       by (apply (a_inv_intro a0 vs rest); auto).
     destruct (a_step a0 o) as [a2 r] eqn:Hstep. cbn [fst snd].
     destruct o; try (simpl in Hin; discriminate);
-      unfold spec_ok; try (unfold SeqModels.spec_step; rewrite Hin; simpl negb; cbv iota);
+      unfold spec_ok; try rewrite Hin; try (unfold SeqModels.spec_step; rewrite Hin; simpl negb; cbv iota);
       simpl in Hin.
     - (* push *) destruct (Hpush _ _ _ Hstep) as (H1 & H2 & H3). rewrite H2, H3. auto.
     - (* pop *)
@@ -796,17 +796,18 @@ Section SpecFacts.
   Lemma spec_ok_no_crash c (l : list E) o l' r :
     spec_ok E eqb ltb zero c l o l' r -> r <> OCrash E /\ r <> OFuel E.
   Proof.
-    unfold spec_ok, SeqModels.spec_step. intros H.
-    destruct o;
-      match type of H with
-      | _ /\ _ => destruct H as [-> _]; split; discriminate
-      | _ => idtac
-      end;
-      destruct (negb (in_range E eqb c l _)); simpl in H;
-      repeat match type of H with
+    intros H.
+    assert (Hs : spec_step c l o = (l', r) \/ r = OUnit E).
+    { unfold spec_ok in H. destruct o; auto.
+      destruct (in_range E eqb c l (SSort E)); [right; tauto | left; exact H]. }
+    destruct Hs as [Hs| ->]; [|split; discriminate].
+    unfold SeqModels.spec_step in Hs.
+    destruct (negb (in_range E eqb c l o)); [injection Hs as <- <-; split; discriminate|].
+    destruct o; simpl in Hs;
+      repeat match type of Hs with
              | context [match ?x with _ => _ end] => destruct x
              end;
-      injection H as <- <-; split; discriminate.
+      injection Hs as <- <-; split; discriminate.
   Qed.
 
   (* the executable reference sort of the specification driver is an instance of the sort relation *)
@@ -851,7 +852,7 @@ Section SpecFacts.
       in_range E eqb c l (SSort E) = true ->
       spec_ok E eqb ltb zero c l (SSort E) (fst (spec_step c l (SSort E))) (snd (spec_step c l (SSort E))).
     Proof.
-      intros Hin. unfold SeqModels.spec_step. rewrite Hin. simpl.
+      intros Hin. unfold spec_ok. rewrite Hin. unfold SeqModels.spec_step. rewrite Hin. simpl.
       destruct (isort_ok l). repeat split; auto.
     Qed.
   End ISort.
